@@ -55,4 +55,33 @@ def withGammaPrior (t : Target) (a r : Nat) (geom : Option Nat) : Option Target 
   | .dim k => some { t with priorGamma := true, priorDim := k }
   | _ => none
 
+/-! ## `Direct.validate_target`: which targets are accepted (second pass)
+
+`validate_target` calls `self.target.sample()` inside a bare `try/except` and turns *any* exception into `TypeError`.
+`Distribution.sample` raises `ValueError` for a conditional distribution; `UserDefinedDistribution._sample` calls
+`sample_func()` once per draw (`N = 1`) and raises when no `sample_func` was given; an object without a `sample`
+attribute raises `AttributeError`. -/
+
+inductive DTarget
+  /-- an unconditional distribution with its own `_sample` -/
+  | hasSample
+  /-- `UserDefinedDistribution(sample_func=f)`: one call of `f` per draw -/
+  | userSampleFunc
+  /-- `UserDefinedDistribution` without `sample_func` -/
+  | userNoSampleFunc
+  /-- a conditional distribution (a parameter is still a callable) -/
+  | conditional
+  /-- an object without a `sample` method -/
+  | noSampleMethod
+  deriving DecidableEq, Repr
+
+/-- `Direct.validate_target` succeeds iff the trial `target.sample()` returns -/
+def directValidates : DTarget → Bool
+  | .hasSample | .userSampleFunc => true
+  | _ => false
+
+/-- calls of the target's sampling routine (`_sample` resp. `sample_func`) after `k` assignments and `N` steps: one
+    per assignment (validation) and one per step, for every accepted kind of target -/
+def directCalls (t : DTarget) (k N : Nat) : Option Nat := if directValidates t then some (k + N) else none
+
 end CuqiVerif.C10
